@@ -20,7 +20,7 @@ A case is either a *block* (['blk', alphabet, length, prefix], ['st', i], ...) o
 input ['one', ...]; block checks run the very same `one()` on every input they contain and
 report failures with the narrow ['one', ...] case, so each failing input is individually
 replayable and matchable.  Per block at most one failure per (function, situation) signature
-is reported (the sweep itself is never cut short)."""
+is reported (the sweep itself is never cut short), and blocks are dealt over many work items."""
 import itertools
 
 from ..core import Sub, fail, lit
@@ -77,15 +77,17 @@ DEMAND_TRIM_KEEPS_CONTROL_WHITESPACE = True
 BOUNDS = {
     'quick': 'every string of length <= 3 over a 12-character alphabet (1 885) + %d structured strings of '
              'length <= 60; counts -2..len+5, MID starts 1..len+2; string/count passing modes var+literal, '
-             'var+var, literal+literal; LEN law on all pairs of (strings of length <= 2 + structured); '
+             'var+var, literal+literal; LEN law on all ordered pairs of (strings of length <= 2 + structured); '
              'case/TRIM/CLEAN also on every string of length <= 5 over {a,B,space,TAB}; CODE(CHAR(n)) '
-             'n = 1..255; SUBSTITUTE texts of length <= 4 over {a,b,space} x 5 old x 4 new x 5 k; '
-             'CONCATENATE/TEXTJOIN item lists of length <= 4 over {"a","b c",blank} x every regrouping x '
-             '3 delimiters x 2 ignore flags' % len(STRUCT),
+             'n = 1..255; SUBSTITUTE texts of length <= 4 over {a,b,space} x 5 old x 4 new x 5 k + structured '
+             'texts x their characters and two-character substrings x 4 new x 3 k; CONCATENATE/TEXTJOIN item '
+             'lists of length <= 3 over {"a","b c",blank,","} and of length 4 over {"a","b c",blank} x every '
+             'regrouping x 3 delimiters x 2 ignore flags' % len(STRUCT),
     'thorough': 'every string of length <= 4 over the 12-character alphabet (22 621) + structured strings; '
                 'LEN law on (length <= 2 + structured) x (length <= 3 + structured); case/TRIM/CLEAN also on '
                 'length <= 7 over {a,B,space,TAB}; CODE(CHAR(n)) for every code point 1..1114111 except '
-                'surrogates; SUBSTITUTE texts of length <= 7; item lists of length <= 5 over 4 items',
+                'surrogates; SUBSTITUTE texts of length <= 7; item lists of length <= 5 over '
+                '{"a","b c",blank,","}',
 }
 ASSUMPTIONS = [
     'LEN counts code points; only BMP characters are used (Excel counts UTF-16 units)',
@@ -103,6 +105,9 @@ ASSUMPTIONS = [
     'a different number is not; n = 0 and surrogates are not demanded',
     'CONCATENATE / TEXTJOIN(.., FALSE, ..) render a blank item as empty text; items are text or blank only '
     '(rendering of numbers/logicals and "" items under ignore_empty are not demanded)',
+    'blank items reach the functions as None variables, None members of host lists and single empty '
+    'positions of literal arrays; runs of empty positions ({"a",,,"b"}), leading/trailing empty positions '
+    'and empty function arguments are argument-list syntax and are not used',
     'SUBSTITUTE: old text never overlaps itself; instance numbers are positive integers',
     'string comparison by = is only used between two values that must be identical, so case sensitivity of '
     '= is irrelevant',
@@ -153,6 +158,21 @@ def block_strings(case):
 def struct_cases():
     for i in range(len(STRUCT)):
         yield ['st', i]
+
+
+class Sharded(Sub):
+    """Cases are dealt over several units (on top of the per-worker stride) so that one work item
+    holds few blocks - the runner stores a bounded number of failures per work item."""
+    UNITS = {'quick': 8, 'thorough': 32}
+
+    def units(self, tier):
+        return list(range(self.UNITS[tier]))
+
+    def cases(self, tier, unit):
+        u = self.UNITS[tier]
+        for i, c in enumerate(self.all_cases(tier)):
+            if unit is None or i % u == unit:
+                yield c
 
 
 class Coll(object):
@@ -309,16 +329,17 @@ def flatten(x, acc):
 
 # --------------------------------------------------------------------------
 
-class Slices(Sub):
+class Slices(Sharded):
     name = 'c15.slices'
-    rule = ('every string of the space x LEFT/RIGHT with every count -2..len+5 and MID with every start '
-            '1..len+2 x every count, in 2-3 argument passing modes, against Python slicing; non-trivial = '
-            'non-empty string')
+    rule = ('every string of the space x LEFT/RIGHT with every count -2..len+5 in 2-3 argument passing modes '
+            'and MID with every start 1..len+2 x every count (string variable + literal numbers; starts 1 and '
+            'len+1 also with variable numbers and with all-literal arguments), against Python slicing; '
+            'non-trivial = non-empty string')
     min_cases = 100
     min_nontrivial = 1000
     min_classes = 14
 
-    def cases(self, tier, unit):
+    def all_cases(self, tier):
         for c in block_cases('A', 3 if tier == 'quick' else 4):
             yield c
         for c in struct_cases():
@@ -333,9 +354,10 @@ class Slices(Sub):
             for mode in modes_for(s):
                 for n in cs:
                     for fn in ('LEFT', 'RIGHT'):
-                        coll.add((fn, count_class(s, n), mode), self.one(env, ['one', fn, s, n, None, mode]))
-                    for st in range(1, len(s) + 3):
-                        coll.add(('MID', count_class(s, n), st > len(s), mode),
+                        coll.add((fn, count_class(s, n)), self.one(env, ['one', fn, s, n, None, mode]))
+                    # MID: every start in mode 'vl'; first start and first start past the end otherwise
+                    for st in (range(1, len(s) + 3) if mode == 'vl' else (1, len(s) + 1)):
+                        coll.add(('MID', count_class(s, n), st > len(s)),
                                  self.one(env, ['one', 'MID', s, st, n, mode]))
         return coll.out
 
@@ -366,7 +388,7 @@ def _show(vars):
     return ', '.join('%s=%r' % (k, vars[k]) for k in sorted(vars)) or 'no variables'
 
 
-class SliceLaws(Sub):
+class SliceLaws(Sharded):
     name = 'c15.slice_laws'
     rule = ('every string of the space: LEFT(s,n)&RIGHT(s,LEN(s)-n) evaluated as a formula gives s (and "=s" '
             'gives TRUE) for every n in 0..len; MID(s,1,n) and LEFT(s,n) have the same outcome for every n '
@@ -375,7 +397,7 @@ class SliceLaws(Sub):
     min_nontrivial = 1000
     min_classes = 8
 
-    def cases(self, tier, unit):
+    def all_cases(self, tier):
         for c in block_cases('A', 3 if tier == 'quick' else 4):
             yield c
         for c in struct_cases():
@@ -388,9 +410,9 @@ class SliceLaws(Sub):
         for s in block_strings(case):
             for mode in modes_for(s):
                 for n in range(0, len(s) + 1):
-                    coll.add(('LR', count_class(s, n), mode), self.one(env, ['one', 'LR', s, n, mode]))
+                    coll.add(('LR', count_class(s, n)), self.one(env, ['one', 'LR', s, n, mode]))
                 for n in counts_for(s):
-                    coll.add(('ML', count_class(s, n), mode), self.one(env, ['one', 'ML', s, n, mode]))
+                    coll.add(('ML', count_class(s, n)), self.one(env, ['one', 'ML', s, n, mode]))
         return coll.out
 
     def one(self, env, case):
@@ -427,7 +449,7 @@ class SliceLaws(Sub):
         return None
 
 
-class LenConcat(Sub):
+class LenConcat(Sharded):
     name = 'c15.len_concat'
     rule = ('every ordered pair (a, b) of strings of the pair space: LEN(a&b), LEN(a)+LEN(b) and '
             '"LEN(a&b)=(LEN(a)+LEN(b))" evaluated as formulas, against len(a)+len(b); LEN(a) against len(a); '
@@ -436,7 +458,7 @@ class LenConcat(Sub):
     min_nontrivial = 1000
     min_classes = 2
 
-    def cases(self, tier, unit):
+    def all_cases(self, tier):
         lb = 2 if tier == 'quick' else 3
         for blk in block_cases('A', 2):
             for a in block_strings(blk):
@@ -453,9 +475,9 @@ class LenConcat(Sub):
             coll.add(('LEN', mode), self.one(env, ['one', a, None, mode]))
         bs = itertools.chain((b for blk in block_cases('A', lb) for b in block_strings(blk)), STRUCT)
         for b in bs:
-            coll.add(('pair', 'v', b == ''), self.one(env, ['one', a, b, 'v']))
+            coll.add(('pair', b == ''), self.one(env, ['one', a, b, 'v']))
             if can_lit(a) and can_lit(b):
-                coll.add(('pair', 'l', b == ''), self.one(env, ['one', a, b, 'l']))
+                coll.add(('pair', b == ''), self.one(env, ['one', a, b, 'l']))
         return coll.out
 
     def one(self, env, case):
@@ -490,7 +512,7 @@ class LenConcat(Sub):
         return None
 
 
-class CaseTrimClean(Sub):
+class CaseTrimClean(Sharded):
     name = 'c15.case_trim_clean'
     rule = ('every string of the space x UPPER/LOWER/PROPER/TRIM/CLEAN: value against the reference (case '
             'table, space splitting, code point < 32 filter), F(F(s)) has the outcome of F(s), and '
@@ -501,7 +523,7 @@ class CaseTrimClean(Sub):
     min_classes = 10
     FNS = ('UPPER', 'LOWER', 'PROPER', 'TRIM', 'CLEAN')
 
-    def cases(self, tier, unit):
+    def all_cases(self, tier):
         for c in block_cases('A', 3 if tier == 'quick' else 4):
             yield c
         for c in block_cases('W', 5 if tier == 'quick' else 7):
@@ -516,7 +538,7 @@ class CaseTrimClean(Sub):
         for s in block_strings(case):
             for mode in (('v', 'l') if can_lit(s) else ('v',)):
                 for fn in self.FNS:
-                    coll.add((fn, mode, self.work(fn, s)), self.one(env, ['one', fn, s, mode]))
+                    coll.add((fn, self.work(fn, s)), self.one(env, ['one', fn, s, mode]))
         return coll.out
 
     @staticmethod
@@ -576,15 +598,15 @@ class CaseTrimClean(Sub):
         return None
 
 
-class CodeChar(Sub):
+class CodeChar(Sharded):
     name = 'c15.code_char'
-    rule = ('every n of the bound, as literal and as variable: CODE(CHAR(n)) gives n and "CODE(CHAR(n))=n" '
-            'gives TRUE (above 255 an error is accepted too); non-trivial = n >= 128')
+    rule = ('every n of the bound, as literal and (below 65536) as variable: CODE(CHAR(n)) gives n and (below '
+            '65536) "CODE(CHAR(n))=n" gives TRUE; above 255 an error is accepted too; non-trivial = n >= 128')
     min_cases = 16
     min_nontrivial = 128
     min_classes = 2
 
-    def cases(self, tier, unit):
+    def all_cases(self, tier):
         if tier == 'quick':
             for lo in range(1, 256, 8):
                 yield ['rng', lo, min(255, lo + 7)]
@@ -604,8 +626,8 @@ class CodeChar(Sub):
         _, lo, hi = case
         coll = Coll(6)
         for n in range(lo, hi + 1):
-            for mode in ('l', 'v'):
-                coll.add((mode,), self.one(env, ['one', n, mode]))
+            for mode in (('l', 'v') if n < 65536 else ('l',)):
+                coll.add(('n',), self.one(env, ['one', n, mode]))
         return coll.out
 
     def one(self, env, case):
@@ -624,6 +646,8 @@ class CodeChar(Sub):
         env.note('ascii' if n < 128 else 'latin1' if n < 256 else 'bmp' if n < 65536 else 'astral')
         if not is_int(o, n):
             return fail('%s with %s gives %r, expected %d' % (f, _show(vars), o, n), ['v', n], o, case=case)
+        if n >= 65536:
+            return None
         f = 'CODE(CHAR(%s))=%s' % (N, N)
         o = env.evo(f, vars=vars)
         if not is_true(o):
@@ -679,7 +703,8 @@ def renderings(items):
         push([['h', [[x] for x in items]]])
     if all(x is not None for x in items):
         push([['L', x] for x in items])
-    if items[0] is not None and items[-1] is not None:
+    adjacent_blanks = any(items[i] is None and items[i + 1] is None for i in range(n - 1))
+    if items[0] is not None and items[-1] is not None and not adjacent_blanks:
         push([['A', list(items)]])
         if n >= 2:
             push([['L', items[0]], ['A', list(items[1:])]] if items[1] is not None else [['A', list(items)]])
@@ -711,7 +736,7 @@ def render_args(args):
     return frags, vars
 
 
-class Join(Sub):
+class Join(Sharded):
     name = 'c15.join'
     rule = ('every item list of the bound over text items and blanks x every regrouping into scalar '
             'arguments, host lists, nested host lists and literal arrays: CONCATENATE and TEXTJOIN x 3 '
@@ -722,11 +747,14 @@ class Join(Sub):
     min_classes = 6
     DELIMS = ('', ',', ', ')
 
-    def cases(self, tier, unit):
-        pool = ['a', 'b c', None] if tier == 'quick' else ['a', 'b c', None, u'\xe9,1']
-        top = 4 if tier == 'quick' else 5
+    def all_cases(self, tier):
+        pool = ['a', 'b c', None, ',']
+        top = 3 if tier == 'quick' else 5
         for n in range(1, top + 1):
             for items in itertools.product(pool, repeat=n):
+                yield ['list', list(items)]
+        if tier == 'quick':
+            for items in itertools.product(pool[:3], repeat=4):
                 yield ['list', list(items)]
 
     def check(self, env, case):
@@ -736,12 +764,12 @@ class Join(Sub):
         coll = Coll()
         blank = any(x is None for x in items)
         for args in renderings(items):
-            kinds = ''.join(sorted(set(a[0] for a in args)))
-            coll.add(('C', blank, kinds), self.one(env, ['one', 'CONCATENATE', args, None, None, 'l']))
+            comma = ',' in items
+            coll.add(('C', blank, comma), self.one(env, ['one', 'CONCATENATE', args, None, None, 'l']))
             for d in self.DELIMS:
                 for ig in (True, False):
                     for dm in ('l', 'v'):
-                        coll.add(('T', blank, ig, kinds, dm),
+                        coll.add(('T', blank, comma, ig),
                                  self.one(env, ['one', 'TEXTJOIN', args, d, ig, dm]))
         return coll.out
 
@@ -780,7 +808,7 @@ class Join(Sub):
 
 # --------------------------------------------------------------------------
 
-class Substitute(Sub):
+class Substitute(Sharded):
     name = 'c15.substitute'
     rule = ('every text of the bound over {a,b,space} x old in {a,b,ab,ba,space} x new in {"",x,ab,a} x '
             'k in {omitted,1,2,3,5} (+ structured texts x their characters / two-character substrings), all '
@@ -793,7 +821,7 @@ class Substitute(Sub):
     NEWS = ('', 'x', 'ab', 'a')
     KS = (None, 1, 2, 3, 5)
 
-    def cases(self, tier, unit):
+    def all_cases(self, tier):
         top = 4 if tier == 'quick' else 7
         for n in range(0, top + 1):
             for t in itertools.product('ab ', repeat=n):
@@ -819,14 +847,15 @@ class Substitute(Sub):
                 if p[0] != p[1] and p not in olds:
                     olds.append(p)
             olds = olds[:24]
-            news, ks = ('', u'漢', 'xy'), (None, 1, 2)
+            news, ks = ('', u'漢', 'xy', ','), (None, 1, 2)
         for old in olds:
             for new in news:
                 for k in ks:
                     for mode in ('v', 'l'):
                         if mode == 'l' and not (can_lit(text) and can_lit(old) and can_lit(new)):
                             continue
-                        coll.add((new == '', k is None, mode), self.one(env, ['one', text, old, new, k, mode]))
+                        coll.add((new == '', ',' in (old, new), k is None),
+                                 self.one(env, ['one', text, old, new, k, mode]))
         return coll.out
 
     def one(self, env, case):
